@@ -8391,6 +8391,20 @@ func (e *ExpressionEmitter) emitImageLoadRZSW(
 	// We record the block ID where we branch to merge (false path)
 	entryBlockID := e.currentBlock.LabelID
 
+	// The first conditional branch heads the selection and must carry its
+	// OpSelectionMerge; the later checks only exit to the same merge block.
+	mergeDeclared := false
+	declareMerge := func() {
+		if mergeDeclared {
+			return
+		}
+		mergeDeclared = true
+		ib := e.newIB()
+		ib.AddWord(mergeBlockID)
+		ib.AddWord(0) // SelectionControl::None
+		e.backend.builder.funcAppend(ib.Build(OpSelectionMerge))
+	}
+
 	// Check level bounds
 	if levelID != nil {
 		// OpImageQueryLevels
@@ -8413,10 +8427,7 @@ func (e *ExpressionEmitter) emitImageLoadRZSW(
 		// SelectionMerge + BranchConditional
 		trueBlockID := e.backend.builder.AllocID()
 
-		ib = e.newIB()
-		ib.AddWord(mergeBlockID)
-		ib.AddWord(0) // SelectionControl::None
-		e.backend.builder.funcAppend(ib.Build(OpSelectionMerge))
+		declareMerge()
 
 		// False path goes to merge with null
 		phiEntries = append(phiEntries, phiEntry{nullID, e.currentBlock.LabelID})
@@ -8458,7 +8469,8 @@ func (e *ExpressionEmitter) emitImageLoadRZSW(
 
 		trueBlockID := e.backend.builder.AllocID()
 
-		// BranchConditional (no SelectionMerge for nested checks)
+		// BranchConditional (SelectionMerge only if this is the first check)
+		declareMerge()
 		e.consumeBlock(Instruction{
 			Opcode: OpBranchConditional,
 			Words:  []uint32{sampleCondID, trueBlockID, mergeBlockID},
@@ -8520,7 +8532,8 @@ func (e *ExpressionEmitter) emitImageLoadRZSW(
 
 		accessBlockID := e.backend.builder.AllocID()
 
-		// BranchConditional
+		// BranchConditional (SelectionMerge only if this is the first check)
+		declareMerge()
 		e.consumeBlock(Instruction{
 			Opcode: OpBranchConditional,
 			Words:  []uint32{coordCondID, accessBlockID, mergeBlockID},
